@@ -17,16 +17,21 @@ ST = "strawberryfields.backends.states"
 level("C16", "other",
       "Proved: BaseGaussianState.reduced_gaussian for a symbolic number of modes and a mode list of symbolic length (whole "
       "result; unsorted lists rejected); parity_expectation, reduced_dm, mean_photon, fidelity hand exactly the reduced data of "
-      "the requested modes to their formula / to thewalrus, reduced_dm tests the purity of the REDUCED state; "
-      "BaseBosonicState.fock_prob / reduced_dm hand (x..,p..)-ordered data to thewalrus (shape-bounded, 2-3 modes). Bounded "
-      "stand-in: cross-method and cross-representation numerical identities (parity = sum (-1)^n p(n), photon statistics from "
-      "Fock probabilities, reduced_dm vs Fock object, fidelities) for every mode subset of correlated 2-3 mode states. Four "
-      "genuine defects found and repaired (F29, F30, F31 and the shape clause of F30).",
+      "the requested modes to their formula / to thewalrus, reduced_dm tests the purity of the REDUCED state. Shape-bounded "
+      "(2 components x 2 modes and 3 x 3, every weight/mean/covariance entry and the angle symbolic): BaseBosonicState."
+      "reduced_bosonic returns exactly the requested modes, quad_expectation = (weighted mean, second moment of the mixture "
+      "minus squared mean), mean_photon mean and variance of the requested mode, fock_prob / reduced_dm hand every component "
+      "in (x..,p..) order with its weight to thewalrus. Bounded stand-in: cross-method and cross-representation numerical "
+      "identities (parity = sum (-1)^n p(n), photon statistics from Fock probabilities, reduced_dm vs Fock object, quadrature "
+      "moments) for every mode subset of correlated 2-3 mode Gaussian states on gaussian/bosonic/fock and of two-mode cat "
+      "states (real and complex representation) on bosonic/fock. F29, F30, F31 found and repaired; F42 (complex component "
+      "means handed to thewalrus) is an open finding.",
       trusted=["thewalrus.quantum.* are recording stubs: only their arguments are constrained",
-               "library: sorted() contract on symbolic lists"])
+               "library: sorted() contract on symbolic lists",
+               "bosonic contracts assume real weights/means (complex components are covered by the bounded stand-in only)"])
 
 native("C16", "c16_states", "native/c16_states.py",
-       bound="correlated 2- and 3-mode states, every ordered/sorted mode subset, gaussian/bosonic/fock(cutoff 12)", timeout=900)
+       bound="correlated 2- and 3-mode Gaussian states on gaussian/bosonic/fock(cutoff 12) and 2-mode cat states (real, complex representation) on bosonic/fock(cutoff 18), pure and lossy, every sorted mode subset", timeout=900)
 
 
 def gstate(h):
@@ -189,3 +194,155 @@ def _mean_photon(h):
         vxx, vpp = cov.at(mode, mode), cov.at(mode + N, mode + N)
         # <n> = (tr V + mu.mu)/(2 hbar) - 1/2 of the ONE requested mode (hbar = 2 in this harness)
         h.ensure("mean-photon-of-the-requested-mode", eqv(mean, (vxx + vpp + x * x + p * p) / 4 - SV(z3.RealVal("1/2"))))
+
+
+# ---------------------------------------------------------------------------------------------------------
+# BaseBosonicState (linear combination of K Gaussians; data order x1,p1,x2,p2,...).  Shape-bounded: K and the
+# number of modes are fixed per obligation, every weight / mean / covariance entry and the angle are symbolic.
+def bstate(h, K, M, normalised=True):
+    st = h.module(ST)
+    w = np.array([h.real(f"w{i}") for i in range(K)], dtype=object)
+    mus = np.array([[h.real(f"m{i}_{a}") for a in range(2 * M)] for i in range(K)], dtype=object)
+    covs = np.array([[[h.real(f"c{i}_{a}_{b}") for b in range(2 * M)] for a in range(2 * M)] for i in range(K)], dtype=object)
+    obj = h.new(st.BaseBosonicState, _modes=M, _weights=w, _mus=mus, _covs=covs, _hbar=2, _basis="bosonic",
+                num_weights=K, _data=(mus, covs, w))
+    h._reg("K", K); h._reg("M", M)
+    if normalised:
+        h.require(eqv(sum(w[i] for i in range(K)), 1))            # a state: the weights sum to one
+    return st, obj, w, mus, covs
+
+
+B_SHAPES = [(2, 2), (3, 3)]          # (components, modes)
+
+
+def _nat(kind):
+    return f"from native.c16_bosonic import replay; replay({kind!r}, OBLIGATION, I)"
+
+
+@proof("C16", ST + ":BaseBosonicState.reduced_bosonic", native=_nat("reduced"))
+def _reduced_bosonic(h):
+    K, M = B_SHAPES[h.eng.choose(len(B_SHAPES), "shape")]
+    st, obj, w, mus, covs = bstate(h, K, M)
+    subsets = [list(c) for r in range(1, M + 1) for c in __import__("itertools").combinations(range(M), r)]
+    modes = subsets[h.eng.choose(len(subsets), "modes")]
+    h._reg("modes", list(modes))
+    out = h.call(obj.reduced_bosonic, list(modes))
+    h.ensure("no-exception", out.returned, bounded_shape=True)
+    if not out.returned:
+        return
+    rw, rm, rc = out.value
+    ind = [x for m in modes for x in (2 * m, 2 * m + 1)]
+    ok_w = len(rw) == K and all(rw[i] is w[i] for i in range(K))
+    ok_m = tuple(np.shape(rm)) == (K, len(ind)) and all(rm[i, a] is mus[i, ind[a]] for i in range(K) for a in range(len(ind)))
+    ok_c = tuple(np.shape(rc)) == (K, len(ind), len(ind)) and all(
+        rc[i, a, b] is covs[i, ind[a], ind[b]] for i in range(K) for a in range(len(ind)) for b in range(len(ind)))
+    h.ensure("weights-unchanged", ok_w, bounded_shape=True)
+    h.ensure("means-of-exactly-the-requested-modes-in-xp-order", ok_m, bounded_shape=True)
+    h.ensure("covariances-of-exactly-the-requested-modes-in-xp-order", ok_c, bounded_shape=True)
+
+
+@proof("C16", ST + ":BaseBosonicState.quad_expectation", native=_nat("quad"))
+def _bosonic_quad(h):
+    K, M = B_SHAPES[h.eng.choose(len(B_SHAPES), "shape")]
+    st, obj, w, mus, covs = bstate(h, K, M)
+    mode = h._reg("mode", h.eng.choose(M, "mode"))
+    phi = h.real("phi")
+    out = h.call(obj.quad_expectation, mode, phi)
+    h.ensure("no-exception", out.returned, bounded_shape=True)
+    if not out.returned:
+        return
+    mean, var = out.value
+    m = h.eng.math
+    c, s = m.cos(phi), m.sin(phi)
+    a, b = 2 * mode, 2 * mode + 1
+    # x_phi = cos(phi) x + sin(phi) p for every component
+    mi = [c * mus[i, a] + s * mus[i, b] for i in range(K)]
+    vi = [c * c * covs[i, a, a] + c * s * (covs[i, a, b] + covs[i, b, a]) + s * s * covs[i, b, b] for i in range(K)]
+    mean_spec = sum(w[i] * mi[i] for i in range(K))
+    second = sum(w[i] * (vi[i] + mi[i] * mi[i]) for i in range(K))
+    h.ensure("mean-is-the-weighted-mean-of-the-rotated-quadrature", eqv(mean, mean_spec), bounded_shape=True)
+    # Var = sum_i w_i (sigma_i + m_i^2) - (sum_i w_i m_i)^2 : second moment of the mixture minus the squared mean
+    h.ensure("variance-is-second-moment-minus-squared-mean", eqv(var, second - mean_spec * mean_spec), bounded_shape=True)
+
+
+@proof("C16", ST + ":BaseBosonicState.mean_photon", native=_nat("mean_photon"))
+def _bosonic_mean_photon(h):
+    K, M = B_SHAPES[h.eng.choose(len(B_SHAPES), "shape")]
+    st, obj, w, mus, covs = bstate(h, K, M)
+    mode = h._reg("mode", h.eng.choose(M, "mode"))
+    out = h.call(obj.mean_photon, mode)
+    h.ensure("no-exception", out.returned, bounded_shape=True)
+    if not out.returned:
+        return
+    mean, var = out.value
+    a, b = 2 * mode, 2 * mode + 1
+    half, quarter = SV(z3.RealVal("1/2")), SV(z3.RealVal("1/4"))
+    ni = [(covs[i, a, a] + covs[i, b, b] + mus[i, a] * mus[i, a] + mus[i, b] * mus[i, b]) / 4 - half for i in range(K)]
+    mean_spec = sum(w[i] * ni[i] for i in range(K))
+    h.ensure("mean-photon-of-the-requested-mode", eqv(mean, mean_spec), bounded_shape=True)
+    # per component: <n^2> - <n>^2 = (tr V^2 + 2 mu.V.mu)/(2 hbar^2) - 1/4 ; mixture: sum w_i (var_i + n_i^2) - mean^2
+    def trv2(i):
+        V = [[covs[i, a, a], covs[i, a, b]], [covs[i, b, a], covs[i, b, b]]]
+        return sum(V[r][t] * V[t][r] for r in range(2) for t in range(2))
+    def mvm(i):
+        mu = [mus[i, a], mus[i, b]]
+        V = [[covs[i, a, a], covs[i, a, b]], [covs[i, b, a], covs[i, b, b]]]
+        return sum(mu[r] * V[r][t] * mu[t] for r in range(2) for t in range(2))
+    var_spec = sum(w[i] * ((trv2(i) + 2 * mvm(i)) / 8 - quarter + ni[i] * ni[i]) for i in range(K)) - mean_spec * mean_spec
+    h.ensure("photon-variance-of-the-requested-mode", eqv(var, var_spec), bounded_shape=True)
+
+
+def _xxpp(vals, k):
+    """(x1,p1,x2,p2,..) -> (x1,x2,..,p1,p2,..) index map for k modes"""
+    return [2 * j for j in range(k)] + [2 * j + 1 for j in range(k)]
+
+
+@proof("C16", ST + ":BaseBosonicState.fock_prob")
+def _bosonic_fock_prob(h):
+    """thewalrus expects (x..,p..)-ordered data: every component is handed over re-ordered, weighted by its weight"""
+    K, M = B_SHAPES[h.eng.choose(len(B_SHAPES), "shape")]
+    st, obj, w, mus, covs = bstate(h, K, M)
+    rec = Rec()
+    E = [h.real(f"E{i}") for i in range(K)]
+    it = iter(E)
+    with h.stubbed(st.twq, "density_matrix_element", rec.fn("dme", lambda: next(it))):
+        out = h.call(obj.fock_prob, [1] + [0] * (M - 1), cutoff=5)
+    h.ensure("no-exception", out.returned, bounded_shape=True)
+    if not out.returned:
+        return
+    perm = _xxpp(None, M)
+    ok = len(rec.calls) == K
+    for i, c in enumerate(rec.calls[:K]):
+        mu_a, cov_a = c[1][0], c[1][1]
+        ok = ok and tuple(np.shape(mu_a)) == (2 * M,) and all(mu_a[a] is mus[i, perm[a]] for a in range(2 * M))
+        ok = ok and tuple(np.shape(cov_a)) == (2 * M, 2 * M) and all(cov_a[a, b] is covs[i, perm[a], perm[b]] for a in range(2 * M) for b in range(2 * M))
+        ok = ok and list(c[1][2]) == [1] + [0] * (M - 1) and list(c[1][3]) == [1] + [0] * (M - 1)
+    h.ensure("every-component-handed-to-thewalrus-in-xxpp-order", ok, bounded_shape=True)
+    h.ensure("weighted-sum-of-the-component-elements", eqv(out.value, sum(w[i] * E[i] for i in range(K))), bounded_shape=True)
+
+
+@proof("C16", ST + ":BaseBosonicState.reduced_dm")
+def _bosonic_reduced_dm(h):
+    K, M = B_SHAPES[h.eng.choose(len(B_SHAPES), "shape")]
+    st, obj, w, mus, covs = bstate(h, K, M)
+    subsets = [list(c) for r in range(1, M + 1) for c in __import__("itertools").combinations(range(M), r)]
+    modes = subsets[h.eng.choose(len(subsets), "modes")]
+    rec = Rec()
+    E = [h.real(f"E{i}") for i in range(K)]
+    it = iter(E)
+    with h.stubbed(st.twq, "density_matrix", rec.fn("dm", lambda: next(it))):
+        out = h.call(obj.reduced_dm, list(modes), cutoff=3)
+    h.ensure("no-exception", out.returned, bounded_shape=True)
+    if not out.returned:
+        return
+    k = len(modes)
+    ind = [x for m in modes for x in (2 * m, 2 * m + 1)]
+    perm = [ind[a] for a in _xxpp(None, k)]
+    ok = len(rec.calls) == K
+    for i, c in enumerate(rec.calls[:K]):
+        mu_a, cov_a = c[1][0], c[1][1]
+        ok = ok and tuple(np.shape(mu_a)) == (2 * k,) and all(mu_a[a] is mus[i, perm[a]] for a in range(2 * k))
+        ok = ok and tuple(np.shape(cov_a)) == (2 * k, 2 * k) and all(cov_a[a, b] is covs[i, perm[a], perm[b]] for a in range(2 * k) for b in range(2 * k))
+        ok = ok and c[2].get("cutoff") == 3 and c[2].get("normalize") is False
+    h.ensure("exactly-the-requested-modes-in-xxpp-order-reach-thewalrus", ok, bounded_shape=True)
+    h.ensure("weighted-sum-of-the-component-matrices", eqv(out.value, sum(w[i] * E[i] for i in range(K))), bounded_shape=True)
